@@ -31,13 +31,14 @@ import (
 
 	sqlite3 "github.com/mattn/go-sqlite3"
 	"github.com/rqlite/rqlite/v10/command/proto"
+	"github.com/rqlite/rqlite/v10/verifx"
 	"verifsim/core"
 	"verifsim/node"
 	"verifsim/sim"
 )
 
 type c22Op struct {
-	K       string `json:"k"` // w | load | loadsql | boot | snap | restart | down | up | join | run
+	K       string `json:"k"` // w | load | loadsql | boot | oload | snap | restart | down | up | join | run
 	N       int    `json:"n,omitempty"`
 	Tbl     string `json:"tbl,omitempty"`
 	Key     int    `json:"key,omitempty"`
@@ -51,6 +52,10 @@ type c22Op struct {
 	Voter   bool   `json:"voter,omitempty"`
 	Trail   int    `json:"trail,omitempty"`
 	Ms      int    `json:"ms,omitempty"`
+	// oload: a load/boot that overlaps a snapshot persist in flight on node N
+	Point string `json:"point,omitempty"` // hook point at which the persisting goroutine is parked
+	LN    int    `json:"ln,omitempty"`    // node that receives the load
+	NW    int    `json:"nw,omitempty"`    // writes issued while the persist is still parked
 }
 
 type c22Scenario struct {
@@ -100,8 +105,34 @@ func c22Gen(r *core.Rand, tier string) any {
 		}
 		sc.Ops = append(sc.Ops, c22Op{K: "restart", N: k, Crash: r.Bool(0.6), Rebuild: r.Bool(0.6)})
 	}
+	// overlap: a load (or boot) applied while a snapshot persist is in flight on one
+	// node, then writes, a snapshot of that node, and a restart of that node that
+	// must rebuild from the snapshot store.
+	overlap := func() {
+		k := r.Intn(8)
+		sc.Ops = append(sc.Ops, c22Op{K: "w", N: r.Intn(8), Tbl: "a", Key: r.Range(1, 12)}) // something to snapshot
+		op := c22Op{K: "oload", N: k, LN: r.Intn(8), Gen: r.Uint64(), Mode: []string{"wal", "delete"}[r.Intn(2)],
+			Via:   []string{"http", "store"}[r.Intn(2)],
+			Point: []string{"store.persist.before", "store.persist.before-finalizer"}[r.Intn(2)], NW: r.Intn(3), Key: r.Intn(12)}
+		if nodes == 1 && r.Bool(0.5) {
+			op.Via = "boot"
+		}
+		sc.Ops = append(sc.Ops, op)
+		for j, n := 0, r.Range(1, 2); j < n; j++ {
+			sc.Ops = append(sc.Ops, c22Op{K: "w", N: r.Intn(8), Tbl: "a", Key: r.Range(1, 12)})
+		}
+		sc.Ops = append(sc.Ops, c22Op{K: "snap", N: k, Trail: 1})
+		if r.Bool(0.5) {
+			sc.Ops = append(sc.Ops, c22Op{K: "w", N: r.Intn(8), Tbl: "a", Key: r.Range(1, 12)})
+		}
+		sc.Ops = append(sc.Ops, c22Op{K: "restart", N: k, Crash: r.Bool(0.5), Rebuild: true})
+	}
 	for i := 0; i < nops; i++ {
 		x := r.Intn(100)
+		if down == 0 && r.Bool(0.07) {
+			overlap()
+			continue
+		}
 		switch {
 		case x < 38:
 			op := c22Op{K: "w", N: r.Intn(8), Tbl: []string{"a", "a", "b"}[r.Intn(3)], Key: r.Range(1, 12), Del: r.Bool(0.2)}
@@ -438,6 +469,44 @@ func c22Run(c *core.Ctx, raw json.RawMessage) {
 	d := &hxDriver{s: s}
 	view := &hxView{s: s}
 	d.After = []func(){view.observe}
+	// park: the hook handler blocks the goroutine that reaches the armed point (the
+	// snapshot persist runs on raft's snapshot goroutine, concurrently with the
+	// FSM) on a channel until the driver releases it.
+	var park struct {
+		mu      sync.Mutex
+		armed   string
+		parked  bool
+		release chan struct{}
+	}
+	verifx.InstallHooks(func(point string) error {
+		park.mu.Lock()
+		if park.armed == "" || point != park.armed || park.parked {
+			park.mu.Unlock()
+			return nil
+		}
+		park.parked, park.armed = true, ""
+		ch := park.release
+		park.mu.Unlock()
+		<-ch
+		return nil
+	}, nil, nil, nil, nil)
+	unpark := func() {
+		park.mu.Lock()
+		park.armed = ""
+		if park.release != nil {
+			close(park.release)
+			park.release = nil
+		}
+		park.parked = false
+		park.mu.Unlock()
+	}
+	isParked := func() bool {
+		park.mu.Lock()
+		defer park.mu.Unlock()
+		return park.parked
+	}
+	defer verifx.ResetHooks()
+	defer unpark()
 	model := &c22Model{dir: filepath.Join(c.Dir, "model")}
 	if err := model.open(); err != nil {
 		panic(err)
@@ -557,16 +626,14 @@ func c22Run(c *core.Ctx, raw json.RawMessage) {
 		return false, ""
 	}
 
-	for opi, op := range sc.Ops {
-		if s.Capped || c.Failed() {
-			break
-		}
-		c.Log.Add("%d op %d %s", s.StepN, opi, c22MustJSON(op))
+	// exec performs one operation (skip: nothing to check afterwards; stop: the run is over).
+	var exec func(op c22Op) (skip, stop bool)
+	exec = func(op c22Op) (skip, stop bool) {
 		switch op.K {
 		case "w":
 			n := pick(op.N)
 			if n == nil {
-				continue
+				return true, false
 			}
 			wcount++
 			marker := fmt.Sprintf("w%d", wcount)
@@ -593,7 +660,7 @@ func c22Run(c *core.Ctx, raw json.RawMessage) {
 					a, known := resolveWrite(op.Tbl, op.Key, marker, op.Del)
 					if !known {
 						c.Discard("write-outcome-unknown")
-						return
+						return false, true
 					}
 					applied = a
 					c.Probe("write_outcome_resolved_by_read")
@@ -601,12 +668,12 @@ func c22Run(c *core.Ctx, raw json.RawMessage) {
 				if !applied && merr == nil {
 					// undo in the model: rebuild is simpler than inverse statements
 					c.Discard("write-not-applied-after-error")
-					return
+					return false, true
 				}
 			}
 			if (stmtErr != "") != (merr != nil) && resp != nil && resp.Code == 200 && resp.J != nil && resp.J.Error == "" {
 				c.Violate("write-result-mismatch", "write %q via node %d: cluster says %q, the model database says %v", stmt, n.Idx, stmtErr, merr)
-				return
+				return false, true
 			}
 			if applied {
 				nWritesOK++
@@ -618,11 +685,11 @@ func c22Run(c *core.Ctx, raw json.RawMessage) {
 		case "load", "boot":
 			n := pick(op.N)
 			if n == nil {
-				continue
+				return true, false
 			}
 			if op.K == "boot" {
 				if len(s.Nodes) != 2 || !s.Nodes[1].Up {
-					continue // boot is a single-node operation
+					return true, false // boot is a single-node operation
 				}
 				n = s.Nodes[1]
 			}
@@ -647,7 +714,7 @@ func c22Run(c *core.Ctx, raw json.RawMessage) {
 				ldr := hxSettle(d, view, 60*time.Second)
 				if ldr == nil {
 					c.Discard("no-leader")
-					return
+					return false, true
 				}
 				var lerr error
 				d.do("store-load", 120*time.Second, func() {
@@ -680,14 +747,14 @@ func c22Run(c *core.Ctx, raw json.RawMessage) {
 					c.Probe("empty_body_treated_as_empty_sql")
 				} else if !failed {
 					c.Violate("invalid-accepted-"+op.Bad, "%s of data that is not a valid database (%s, %d bytes, via %s node %d) was reported as successful", op.K, op.Bad, len(data), via, n.Idx)
-					return
+					return false, true
 				}
 				c.Log.Add("invalid %s rejected: %.200s", op.K, strings.ReplaceAll(why, c.Dir, "<dir>"))
 			} else {
 				if failed {
 					// a valid load may only fail for lack of a leader etc.; with a settled cluster that is a defect of the path
 					c.Violate("valid-load-failed", "%s of a valid %s-mode database (%d bytes, via %s node %d) failed: %s", op.K, op.Mode, len(data), via, n.Idx, why)
-					return
+					return false, true
 				}
 				if err := model.replace(good); err != nil {
 					panic(err)
@@ -696,10 +763,81 @@ func c22Run(c *core.Ctx, raw json.RawMessage) {
 				c.Probe(op.K + "_" + op.Mode + "_via_" + via)
 			}
 			lastKind = kind
+		case "oload":
+			n := pick(op.N)
+			if n == nil || op.Point == "" {
+				return true, false
+			}
+			park.mu.Lock()
+			park.armed, park.parked, park.release = op.Point, false, make(chan struct{})
+			park.mu.Unlock()
+			nn := n
+			st := s.Go(fmt.Sprintf("snapshot n%d (to be overlapped)", n.Idx), func() {
+				hxDo(nn, "POST", "/snapshot?trailing_logs=1", "", nil, "", "")
+			})
+			d.runUntil(func() bool { return isParked() || st.Finished }, 60*time.Second)
+			overlapped := isParked()
+			if overlapped {
+				c.Probe("persist_parked_" + strings.TrimPrefix(op.Point, "store.persist."))
+			} else {
+				c.Probe("overlap_not_reached")
+			}
+			c.Log.Add("%d persist on n%d parked=%v at %s", s.StepN, n.Idx, overlapped, op.Point)
+			// the load (or boot) and optional writes happen while the persist is parked
+			if len(s.Nodes) == 2 && op.Via == "boot" {
+				// boot ends with a snapshot of its own, which queues behind the parked one:
+				// run it as a task and release the parked persist while it waits
+				good, err := c22MakeDB(gendir, op.Gen, op.Mode)
+				if err != nil {
+					panic(fmt.Sprintf("generate db: %v", err))
+				}
+				var bresp *hxResp
+				bootTask := s.Go("http-boot (overlapping)", func() {
+					bresp = hxDo(nn, "POST", "/boot", "application/octet-stream", good, "", "")
+				})
+				for i := 0; i < 40 && !bootTask.Finished; i++ {
+					d.step()
+				}
+				unpark()
+				d.await(bootTask, 120*time.Second)
+				d.await(st, 120*time.Second)
+				if failed, why := respFailed(bresp); failed {
+					c.Violate("valid-load-failed", "boot of a valid %s-mode database overlapping a snapshot persist failed: %s", op.Mode, why)
+					return false, true
+				}
+				if err := model.replace(good); err != nil {
+					panic(err)
+				}
+				loaded = true
+				if overlapped {
+					c.Probe("boot_overlapping_persist")
+				}
+				lastKind = "overlapped-boot"
+				return false, false
+			}
+			inner := op
+			inner.K, inner.N, inner.Bad = "load", op.LN, ""
+			if inner.Via == "boot" {
+				inner.Via = "http"
+			}
+			if _, stop := exec(inner); stop {
+				return false, true
+			}
+			for i := 0; i < op.NW; i++ {
+				if _, stop := exec(c22Op{K: "w", N: op.LN + i, Tbl: "a", Key: 1 + (op.Key+i)%12}); stop {
+					return false, true
+				}
+			}
+			unpark()
+			d.await(st, 120*time.Second)
+			if overlapped {
+				c.Probe("load_overlapping_persist")
+			}
+			lastKind = "overlapped-load"
 		case "loadsql":
 			n := pick(op.N)
 			if n == nil {
-				continue
+				return true, false
 			}
 			// source database -> SQL text; existing objects of the same name are dropped first
 			p := filepath.Join(gendir, "sqlsrc.sqlite")
@@ -750,7 +888,7 @@ func c22Run(c *core.Ctx, raw json.RawMessage) {
 				}
 				if !failed {
 					c.Violate("invalid-accepted-sqlerr", "SQL-text load containing a failing statement was reported as successful (via node %d)", n.Idx)
-					return
+					return false, true
 				}
 				lastKind = "loadsql-invalid"
 			} else {
@@ -759,7 +897,7 @@ func c22Run(c *core.Ctx, raw json.RawMessage) {
 				}
 				if failed {
 					c.Violate("valid-load-failed", "SQL-text load (%d bytes, via node %d) failed: %s", len(text), n.Idx, why)
-					return
+					return false, true
 				}
 				loaded = true
 				c.Probe("loadsql_ok")
@@ -768,7 +906,7 @@ func c22Run(c *core.Ctx, raw json.RawMessage) {
 		case "snap":
 			n := pick(op.N)
 			if n == nil {
-				continue
+				return true, false
 			}
 			var resp *hxResp
 			q := "/snapshot"
@@ -791,22 +929,22 @@ func c22Run(c *core.Ctx, raw json.RawMessage) {
 		case "restart", "down":
 			n := pick(op.N)
 			if n == nil || (len(upNodes()) <= (len(s.Nodes)-1)/2+0 && len(s.Nodes) > 2) {
-				continue
+				return true, false
 			}
 			if op.K == "down" && (downIdx != 0 || len(s.Nodes)-1 < 3) {
-				continue
+				return true, false
 			}
 			if op.Crash {
 				if err := s.Crash(n.Idx); err != nil {
 					c.Discard("crash-failed")
-					return
+					return false, true
 				}
 				c.Probe("node_crashed")
 			} else {
 				nn := n
 				if !d.do(fmt.Sprintf("graceful-stop n%d", n.Idx), 180*time.Second, func() { nn.Stop() }) {
 					c.Discard("graceful-stop-did-not-finish")
-					return
+					return false, true
 				}
 				c.Probe("node_stopped_gracefully")
 			}
@@ -824,7 +962,7 @@ func c22Run(c *core.Ctx, raw json.RawMessage) {
 			}
 			if err := s.Restart(n.Idx); err != nil {
 				c.Violate("restart-failed", "node %d did not restart (crash=%v, loaded=%v): %s", n.Idx, op.Crash, loaded, strings.ReplaceAll(err.Error(), c.Dir, "<dir>"))
-				return
+				return false, true
 			}
 			if loaded {
 				c.Probe("restart_after_load")
@@ -835,24 +973,24 @@ func c22Run(c *core.Ctx, raw json.RawMessage) {
 			}
 		case "up":
 			if downIdx == 0 {
-				continue
+				return true, false
 			}
 			if err := s.Restart(downIdx); err != nil {
 				c.Violate("restart-failed", "node %d did not restart after being down (loaded=%v): %s", downIdx, loaded, strings.ReplaceAll(err.Error(), c.Dir, "<dir>"))
-				return
+				return false, true
 			}
 			c.Probe("node_back_after_missing_operations")
 			downIdx = 0
 			lastKind = "catch-up"
 		case "join":
 			if len(s.Nodes)-1 >= 5 || downIdx != 0 {
-				continue
+				return true, false
 			}
 			n := s.AddNode(sc.Knobs)
 			n.WithHTTP = true
 			if err := s.StartAndJoin(n.Idx, op.Voter); err != nil {
 				c.Discard("join-failed")
-				return
+				return false, true
 			}
 			c.Probe("late_join")
 			if loaded {
@@ -861,8 +999,23 @@ func c22Run(c *core.Ctx, raw json.RawMessage) {
 			lastKind = "join"
 		case "run":
 			d.runFor(time.Duration(op.Ms) * time.Millisecond)
-			continue
+			return true, false
 		default:
+			return true, false
+		}
+		return false, false
+	}
+
+	for opi, op := range sc.Ops {
+		if s.Capped || c.Failed() {
+			break
+		}
+		c.Log.Add("%d op %d %s", s.StepN, opi, c22MustJSON(op))
+		skip, stop := exec(op)
+		if stop {
+			return
+		}
+		if skip {
 			continue
 		}
 		if c.Failed() {
